@@ -30,7 +30,7 @@ var (
 	windowChoices  = []int{1, 7, 64, 1024, 65535}
 	wbcChoices     = []int{1, 2, 5}
 	backlogChoices = []int{1, 2, 10}
-	chunkChoices   = []int{1, 3, 17, 512, 1 << 20}
+	chunkChoices   = []int{1, 2, 3, 7, 17, 512, 1 << 20}
 	capChoices     = []int{1, 64, 4096, 1 << 20}
 )
 
